@@ -14,7 +14,7 @@ functional ops are Fn codes: 0 = F.relu, 1 = y + y (operator.add), 2 = -y (opera
 import random
 from .common import Nat, Raw, coq
 
-FN_NAMES = {0: 'relu', 1: 'add', 2: 'neg'}
+FN_NAMES = {0: 'relu', 1: 'add', 2: 'neg', 3: 'mul2', 4: 'clamp(method)', 5: 'abs(method)', 6: 'flatten(0,0)(method)', 10: 'add-branch-input(residual)'}
 LAYER_KINDS = ['conv1', 'conv3', 'conv3nb', 'dw', 'relu', 'id', 'maxpool']
 
 
@@ -23,11 +23,31 @@ def _rand_layer(rng, allow=('conv1', 'conv3', 'conv3nb', 'dw', 'relu', 'maxpool'
 
 
 def gen_branch(rng, force_kind=None):
-    kind = force_kind or rng.choice(['single', 'single', 'seq', 'user', 'userfn', 'userfn', 'identity'])
+    kind = force_kind or rng.choice(['single', 'single', 'seq', 'user', 'userfn', 'userfn', 'identity', 'usermix', 'usermix'])
     if kind == 'single':
         return {'kind': 'single', 'layers': [_rand_layer(rng, ('conv1', 'conv3', 'conv3nb', 'dw'))], 'fn': None}
     if kind == 'identity':
         return {'kind': 'identity', 'layers': ['id'], 'fn': None}
+    if kind == 'usermix':
+        # user block with non-module ops BETWEEN / BEFORE its layers (functional ops, method calls), optionally a residual
+        # connection around the whole branch: conv2(F.relu(conv1(x))), x + conv(conv(x) * 2), conv(x.abs()).clamp(..), ...
+        nm = rng.randint(2, 3)
+        ops = []
+        if rng.random() < 0.35:
+            ops.append(['f', rng.choice([0, 2, 5, 6])])           # starts with a non-module op
+        for j in range(nm):
+            ops.append(['m', _rand_layer(rng, ('conv1', 'conv3', 'dw') if j == 0 else ('conv1', 'conv3', 'conv3nb', 'dw', 'maxpool'))])
+            if j < nm - 1:
+                for _ in range(rng.choice([1, 1, 1, 2, 0])):      # one (sometimes two, sometimes none) op in the middle
+                    ops.append(['f', rng.choice([0, 0, 1, 2, 3, 4, 5, 6])])
+        if not any(o[0] == 'f' for o in ops[:-1]):
+            ops.insert(1, ['f', rng.choice([0, 3, 5])])
+        r = rng.random()
+        if r < 0.3:
+            ops.append(['f', 10])                                 # residual: branch input + branch body
+        elif r < 0.5:
+            ops.append(['f', rng.choice([0, 4, 6])])
+        return {'kind': 'usermix', 'ops': ops, 'layers': [o[1] for o in ops if o[0] == 'm'], 'fn': ops[-1][1] if ops[-1][0] == 'f' else None}
     n = rng.randint(2, 3)
     layers = [_rand_layer(rng, ('conv1', 'conv3', 'dw'))] + [_rand_layer(rng) for _ in range(n - 1)]
     if kind == 'seq':
@@ -50,6 +70,8 @@ def gen_desc(rng, nblocks=None, nbranches=None, twice=None, tail=None, diffres=F
             brs[rng.randrange(k)] = gen_branch(rng, 'userfn')
         if rng.random() < 0.3:
             brs[rng.randrange(k)] = gen_branch(rng, 'identity')
+        if rng.random() < 0.5:
+            brs[rng.randrange(k)] = gen_branch(rng, 'usermix')
         blocks.append({'branches': brs, 'gumbel': rng.random() < 0.35, 'hard': rng.random() < 0.3})
     chain = []
     if rng.random() < 0.7:
@@ -106,6 +128,14 @@ def finish_desc(d):
             elif br['kind'] == 'seq':
                 for j, l in enumerate(br['layers']):
                     ls.append(('M', add('%s.%d' % (base, j), l)))
+            elif br['kind'] == 'usermix':
+                j = 0
+                for o in br['ops']:
+                    if o[0] == 'm':
+                        ls.append(('M', add('%s.m%d' % (base, j), o[1])))
+                        j += 1
+                    else:
+                        ls.append(('F', o[1]))
             else:
                 for j, l in enumerate(br['layers']):
                     ls.append(('M', add('%s.m%d' % (base, j), l)))
@@ -182,12 +212,44 @@ def build(d, torch):
             return nn.Linear(C * th * tw, 3)
         raise ValueError(kind)
 
-    def apply_fn(f, y):
+    def apply_fn(f, y, xin=None):
         if f == 0:
             return F.relu(y)
         if f == 1:
             return y + y
-        return -y
+        if f == 2:
+            return -y
+        if f == 3:
+            return y * 2
+        if f == 4:
+            return y.clamp(-1099511627776, 1099511627776)
+        if f == 5:
+            return y.abs()
+        if f == 6:
+            return y.flatten(0, 0)
+        if f == 10:
+            return y + xin
+        raise ValueError(f)
+
+    class UserMix(nn.Module):
+        def __init__(self, ops):
+            super().__init__()
+            self.ops = [tuple(o) for o in ops]
+            j = 0
+            for o in self.ops:
+                if o[0] == 'm':
+                    setattr(self, 'm%d' % j, mk(o[1]))
+                    j += 1
+
+        def forward(self, x):
+            y, j = x, 0
+            for o in self.ops:
+                if o[0] == 'm':
+                    y = getattr(self, 'm%d' % j)(y)
+                    j += 1
+                else:
+                    y = apply_fn(o[1], y, x)
+            return y
 
     class UserBlock(nn.Module):
         def __init__(self, layers, fn):
@@ -209,6 +271,8 @@ def build(d, torch):
             return mk(br['layers'][0])
         if br['kind'] == 'seq':
             return nn.Sequential(*[mk(l) for l in br['layers']])
+        if br['kind'] == 'usermix':
+            return UserMix(br['ops'])
         return UserBlock(br['layers'], br['fn'])
 
     class SNNet(nn.Module):
@@ -251,18 +315,48 @@ def build(d, torch):
     return m, x, ex
 
 
+def _apply_ir_layer(d, model, l, x, xin, F):
+    if l[0] == 'M':
+        return model.get_submodule(d['names'][l[1]])(x)
+    c = l[1]
+    if c == 0:
+        return F.relu(x)
+    if c == 1:
+        return x + x
+    if c == 2:
+        return -x
+    if c == 3:
+        return x * 2
+    if c == 4:
+        return x.clamp(-1099511627776, 1099511627776)
+    if c == 5:
+        return x.abs()
+    if c == 6:
+        return x.flatten(0, 0)
+    if c == 10:
+        return x + xin
+    raise ValueError(c)
+
+
 def eval_chain(d, model, chain, x, torch):
-    """evaluate a list of IR layers (('M', id) | ('F', code)) with the modules of `model` (the user's own modules)"""
+    """evaluate a list of IR layers (('M', id) | ('F', code)) with the modules of `model` (no residual code 10 here)"""
     import torch.nn.functional as F
     for l in chain:
-        if l[0] == 'M':
-            x = model.get_submodule(d['names'][l[1]])(x)
-        elif l[1] == 0:
-            x = F.relu(x)
-        elif l[1] == 1:
-            x = x + x
+        x = _apply_ir_layer(d, model, l, x, None, F)
+    return x
+
+
+def eval_selection(d, model, win, x, torch):
+    """run the fixed layers and, for every block, the branch win[block] with the user's own modules (code 10 = add the
+    input of the branch: residual inside a branch)"""
+    import torch.nn.functional as F
+    for n in d['ir']:
+        if n[0] == 'fixed':
+            x = _apply_ir_layer(d, model, n[1], x, None, F)
         else:
-            x = -x
+            xin = x
+            for l in n[2][win[n[1]]]:
+                x = _apply_ir_layer(d, model, l, x, xin, F)
     return x
 
 
@@ -329,17 +423,22 @@ def gen_alpha_neartie(rng, k, gap, runner):
 
 
 def graph_sequence(gm, d):
-    """the executed sequence of an fx GraphModule as IR layers: call_module -> ('M', qualified name), call_function -> ('F', name)"""
+    """the node sequence of an fx GraphModule as IR layers: call_module -> ('M', qualified name), call_function /
+    call_method -> ('F', code) (unknown ones -> their name, which never matches the model)"""
     import operator
     import torch
     import torch.nn.functional as F
-    fmap = {F.relu: 0, torch.relu: 0, operator.add: 1, operator.neg: 2}
+    fmap = {F.relu: 0, torch.relu: 0, operator.neg: 2, operator.mul: 3}
+    mmap = {'clamp': 4, 'abs': 5, 'flatten': 6}
     seq = []
     for n in gm.graph.nodes:
         if n.op == 'call_module':
             seq.append(('M', str(n.target)))
         elif n.op == 'call_function':
-            seq.append(('F', fmap.get(n.target, str(n.target))))
+            if n.target is operator.add:
+                seq.append(('F', 1 if (len(n.args) == 2 and n.args[0] is n.args[1]) else 10))
+            else:
+                seq.append(('F', fmap.get(n.target, str(n.target))))
         elif n.op == 'call_method':
-            seq.append(('F', 'method:' + str(n.target)))
+            seq.append(('F', mmap.get(str(n.target), 'method:' + str(n.target))))
     return seq
